@@ -51,11 +51,14 @@ def handle (op : String) (args : List String) : String :=
       match idx.toNat?, o.toNat?, mode.toNat?, pidx.toNat? with
       | some i, some on, some m, some pi =>
         match locateNode T i, P[pi]? with
-        | some ([p0], sibs), some par =>
+        | some (anc, sibs), some par =>
           let opts := DupOpts.ofNat on
-          if p0.sid != par.sid || par.isTerm || opts.withParents then "err BadParent"
-          else "ok " ++ dumpTok (P.set pi (dupInto S opts (m % 2 == 0) par sibs))
-        | some _, some _ => "err BadParent"
+          match anc.getLast? with
+          | none => "err BadParent"
+          | some top =>
+            if top.sid != par.sid || par.isTerm || (anc.length > 1 && !opts.withParents) then "err BadParent"
+            else if anc.length == 1 then "ok " ++ dumpTok (P.set pi (dupInto S opts (m % 2 == 0) par sibs))
+            else "ok " ++ dumpTok (P.set pi (dupIntoChain S opts (m % 2 == 0) par anc.dropLast sibs))
         | _, _ => "err BadIndex"
       | _, _, _, _ => "err BadArg"
   | "wf", [dsl, t] =>
